@@ -28,8 +28,30 @@ impl Tier {
     }
 }
 
+/// last panic message per thread (the engine's search thread panics are read from here)
+pub static PANICS: Mutex<Vec<(std::thread::ThreadId, String)>> = Mutex::new(Vec::new());
+
 pub fn silence_panics() {
-    std::panic::set_hook(Box::new(|_| {}));
+    std::panic::set_hook(Box::new(|info| {
+        let msg = if let Some(s) = info.payload().downcast_ref::<&str>() {
+            s.to_string()
+        } else if let Some(s) = info.payload().downcast_ref::<String>() {
+            s.clone()
+        } else {
+            "panic".to_string()
+        };
+        let loc = info.location().map(|l| format!(" at {}:{}", l.file(), l.line())).unwrap_or_default();
+        if let Ok(mut g) = PANICS.lock() {
+            if g.len() > 10_000 {
+                g.clear();
+            }
+            g.push((std::thread::current().id(), format!("{}{}", msg, loc)));
+        }
+    }));
+}
+
+pub fn last_panic_of(id: std::thread::ThreadId) -> Option<String> {
+    PANICS.lock().ok().and_then(|g| g.iter().rev().find(|(t, _)| *t == id).map(|(_, m)| m.clone()))
 }
 
 /// run the subject, turning an unwinding panic into Err(message)
